@@ -276,12 +276,8 @@ def contains(R, E, container, x, node):
     if isinstance(container, PySet):
         return contains(R, E, container.items, x, node)
     if isinstance(container, dict):
-        if conc(x):
-            try:
-                return x in container
-            except TypeError:
-                E.raise_("TypeError", node, "safety")
-        return z3.Or(*[zbool(equal(R, E, x, k, node)) for k in container]) if container else False
+        from . import dicts
+        return dicts.find(R, E, container, x, node) is not None
     if isinstance(container, _SD):
         return container.has(E, x)
     if is_str_like(container) and is_str_like(x):
@@ -366,20 +362,11 @@ def getitem(R, E, base, idx, node):
         k = E.choose([eff == j for j in range(n)])
         return base[k]
     if isinstance(base, dict):
-        if conc(idx):
-            try:
-                if idx in base:
-                    return base[idx]
-            except TypeError:
-                E.raise_("TypeError", node, "safety")
-            symkeys = [k for k in base if False]
+        from . import dicts
+        k = dicts.find(R, E, base, idx, node)
+        if k is None:
             E.raise_("KeyError", node, "safety")
-        keys = list(base.keys())
-        conds = [zbool(equal(R, E, idx, k, node)) for k in keys]
-        k = E.choose(conds + [z3.Not(z3.Or(*conds)) if conds else z3.BoolVal(True)])
-        if k == len(keys):
-            E.raise_("KeyError", node, "safety")
-        return base[keys[k]]
+        return base[k]
     if isinstance(base, _SD):
         return base.getitem(E, idx, node)
     if isinstance(base, SList):
@@ -433,15 +420,9 @@ def setitem(R, E, base, idx, v, node):
         base[k] = v
         return
     if isinstance(base, dict):
-        if conc(idx):
-            base[idx] = v
-            return
-        keys = list(base.keys())
-        conds = [zbool(equal(R, E, idx, k, node)) for k in keys]
-        k = E.choose(conds + [z3.Not(z3.Or(*conds)) if conds else z3.BoolVal(True)])
-        if k == len(keys):
-            raise Unsupported("insertion of a symbolic key in a concrete dict")
-        base[keys[k]] = v
+        from . import dicts
+        k = dicts.find(R, E, base, idx, node)
+        base[k if k is not None else dicts.mk(idx)] = v
         return
     if isinstance(base, _SD):
         return base.setitem(E, idx, v, node)
@@ -659,8 +640,8 @@ def list_method(R, E, recv, name, args, kwargs, node):
             if E.branch(r):
                 return i
         E.raise_("ValueError", node, "safety")
-    if name == "sort" and all(conc(x) for x in recv) and not kwargs:
-        recv.sort()
+    if name == "sort" and not kwargs:
+        recv[:] = small_sort(R, E, list(recv), node)
         return None
     if name == "reverse":
         recv.reverse()
@@ -668,46 +649,75 @@ def list_method(R, E, recv, name, args, kwargs, node):
     raise Unsupported("list.%s" % name)
 
 
+def py_less(R, E, a, b, node):
+    """a < b for ints/reals/strings/tuples (lexicographic), as bool or z3 Bool"""
+    if isinstance(a, tuple) and isinstance(b, tuple):
+        for x, y in zip(a, b):
+            lt = py_less(R, E, x, y, node)
+            if E.branch(lt):
+                return True
+            if not E.branch(equal(R, E, x, y, node)):
+                return False
+        return len(a) < len(b)
+    return compare(R, E, ast.Lt(), a, b, node)
+
+
+def small_sort(R, E, items, node=None):
+    """stable insertion sort of a short list whose comparisons may be symbolic (forks)"""
+    if all(conc(x) and not isinstance(x, (tuple, list)) for x in items):
+        try:
+            return sorted(items)
+        except TypeError:
+            E.raise_("TypeError", node, "safety")
+    out = []
+    for x in items:
+        pos = len(out)
+        while pos > 0 and E.branch(py_less(R, E, x, out[pos - 1], node)):
+            pos -= 1
+        out.insert(pos, x)
+    return out
+
+
 def dict_method(R, E, recv, name, args, kwargs, node):
+    from . import dicts
     if name == "items":
-        return [(k, v) for k, v in recv.items()]
+        return dicts.items(recv)
     if name == "keys":
-        return list(recv.keys())
+        return dicts.keys(recv)
     if name == "values":
         return list(recv.values())
     if name == "get":
-        k = args[0]
         default = args[1] if len(args) > 1 else kwargs.get("default")
-        if conc(k):
-            try:
-                return recv.get(k, default)
-            except TypeError:
-                E.raise_("TypeError", node, "safety")
-        keys = list(recv.keys())
-        conds = [zbool(equal(R, E, k, kk, node)) for kk in keys]
-        i = E.choose(conds + [z3.Not(z3.Or(*conds)) if conds else z3.BoolVal(True)])
-        return default if i == len(keys) else recv[keys[i]]
+        k = dicts.find(R, E, recv, args[0], node)
+        return default if k is None else recv[k]
     if name == "update":
         if args:
             src = args[0]
-            if isinstance(src, dict):
-                recv.update(src)
-            else:
-                for k, v in E.iterate_concrete(src, node):
-                    recv[k] = v
-        recv.update(kwargs)
+            pairs = dicts.items(src) if isinstance(src, dict) else E.iterate_concrete(src, node)
+            for k, v in pairs:
+                setitem(R, E, recv, k, v, node)
+        for k, v in kwargs.items():
+            setitem(R, E, recv, k, v, node)
         return None
     if name == "copy":
         return dict(recv)
     if name == "pop":
-        if conc(args[0]):
-            if args[0] in recv:
-                return recv.pop(args[0])
-            if len(args) > 1:
-                return args[1]
-            E.raise_("KeyError", node, "safety")
-    if name == "setdefault" and conc(args[0]):
-        return recv.setdefault(args[0], args[1] if len(args) > 1 else None)
+        k = dicts.find(R, E, recv, args[0], node)
+        if k is not None:
+            return recv.pop(k)
+        if len(args) > 1:
+            return args[1]
+        E.raise_("KeyError", node, "safety")
+    if name == "setdefault":
+        k = dicts.find(R, E, recv, args[0], node)
+        if k is not None:
+            return recv[k]
+        v = args[1] if len(args) > 1 else None
+        recv[dicts.mk(args[0])] = v
+        return v
+    if name == "clear":
+        recv.clear()
+        return None
     raise Unsupported("dict.%s" % name)
 
 
@@ -759,7 +769,8 @@ def iterspec(R, E, v, node):
     if isinstance(v, PySet):
         return IterSpec(concrete=list(v.items))
     if isinstance(v, dict):
-        return IterSpec(concrete=list(v.keys()))
+        from . import dicts
+        return IterSpec(concrete=dicts.keys(v))
     if isinstance(v, str):
         return IterSpec(concrete=list(v))
     if isinstance(v, RangeVal):
@@ -1022,6 +1033,9 @@ def install(R):
                 E.raise_("TypeError", None, "safety")
         if len(items) <= 1:
             return list(items)
+        if key is None and len(items) <= 6:
+            r = small_sort(R, E, list(items))
+            return list(reversed(r)) if reverse else r
         raise Unsupported("sorted of symbolic items")
 
     @reg("builtin.list")
@@ -1044,7 +1058,7 @@ def install(R):
                 d.update(a[0])
             else:
                 for k, v in E.iterate_concrete(a[0]):
-                    d[k] = v
+                    setitem(R, E, d, k, v, None)
         d.update(kw)
         return d
 
